@@ -651,7 +651,6 @@ func (g *c47Gen) query() *c47Query {
 		if r.Intn(12) == 0 {
 			p = []string{"", "\xff", "\xff\xff"}[r.Intn(3)]
 		}
-		var pre []interface{}
 		prem := map[string]bool{}
 		var cnt uint64
 		for i := r.Intn(3); i > 0; i-- {
@@ -665,38 +664,11 @@ func (g *c47Gen) query() *c47Query {
 				cnt++
 			}
 		}
-		var pks []string
-		for pk := range prem {
-			pks = append(pks, pk)
-		}
-		sort.Strings(pks)
-		for _, pk := range pks {
-			pre = append(pre, vL(pk, prem[pk]))
-		}
 		max := cnt + 1 + uint64(r.Intn(4))
 		if r.Intn(3) == 0 {
 			max = cnt + 1000
 		}
-		return &c47Query{vL(vSym("qpfx"), p, max, pre, cnt), func(h *c47Handles) []interface{} {
-			res := map[string]bool{}
-			for pk, f := range prem {
-				res[pk] = f
-			}
-			rnd, err := h.aor.LookupKeysByPrefix(p, max, res, cnt)
-			if err != nil {
-				return c47Err(err)
-			}
-			var ks []string
-			for k := range res {
-				ks = append(ks, k)
-			}
-			sort.Strings(ks)
-			var l []interface{}
-			for _, k := range ks {
-				l = append(l, vL(k, res[k]))
-			}
-			return vL(uint64(rnd), l)
-		}}
+		return c47QPfx(p, max, prem, cnt)
 	case 11, 12, 13:
 		k := g.key()
 		p := k[:r.Intn(len(k)+1)]
@@ -718,29 +690,10 @@ func (g *c47Gen) query() *c47Query {
 			maxBytes = uint64(1 + r.Intn(24))
 		}
 		excl := map[string][]byte{}
-		var exl []interface{}
 		for i := r.Intn(3); i > 0; i-- {
 			excl[g.key()] = nil
 		}
-		var eks []string
-		for ek := range excl {
-			eks = append(eks, ek)
-		}
-		sort.Strings(eks)
-		for _, ek := range eks {
-			exl = append(exl, ek)
-		}
-		return &c47Query{vL(vSym("qpfxc"), p, cur, limit, maxBytes, incl, exl), func(h *c47Handles) []interface{} {
-			rnd, res, more, err := h.aor.LookupKeysByPrefixCursor(p, cur, limit, maxBytes, incl, excl)
-			if err != nil {
-				return c47Err(err)
-			}
-			var l []interface{}
-			for _, kv := range res {
-				l = append(l, vL(kv.Key, kv.Value))
-			}
-			return vL(uint64(rnd), l, more)
-		}}
+		return c47QPfxc(p, cur, limit, maxBytes, incl, excl)
 	case 14:
 		i, ct := g.aidx(), r.Intn(2)
 		return &c47Query{vL(vSym("qcreator"), i, ct), func(h *c47Handles) []interface{} {
@@ -805,18 +758,7 @@ func (g *c47Gen) query() *c47Query {
 		if r.Intn(3) == 0 {
 			n = 100
 		}
-		return &c47Query{vL(vSym("qtop"), rd, off, n), func(h *c47Handles) []interface{} {
-			m, err := h.ar.AccountsOnlineTop(basics.Round(rd), off, n, c47RewardUnit)
-			if err != nil {
-				return c47Err(err)
-			}
-			var l []interface{}
-			for _, a := range c47SortedAddrs(m) {
-				oa := m[a]
-				l = append(l, vL(a[:], oa.Address == a, oa.MicroAlgos.Raw, oa.NormalizedOnlineBalance, uint64(oa.VoteLastValid)))
-			}
-			return vL(l)
-		}}
+		return c47QTop(rd, off, n)
 	case 20:
 		return &c47Query{vL(vSym("qorp")), func(h *c47Handles) []interface{} {
 			ds, end, err := h.ar.AccountsOnlineRoundParams()
@@ -845,17 +787,7 @@ func (g *c47Gen) query() *c47Query {
 		}}
 	case 22:
 		mx := uint64(r.Intn(4))
-		return &c47Query{vL(vSym("qonlall"), mx), func(h *c47Handles) []interface{} {
-			ds, err := h.ar.OnlineAccountsAll(mx)
-			if err != nil {
-				return c47Err(err)
-			}
-			var l []interface{}
-			for _, d := range ds {
-				l = append(l, vL(d.Addr[:], uint64(d.UpdRound), uint64(d.Round), d.Ref != nil, c47OnlObs(d.AccountData)))
-			}
-			return vL(l)
-		}}
+		return c47QOnlAll(mx)
 	case 23:
 		dbr := g.roundNear()
 		var mx uint64
@@ -887,16 +819,7 @@ func (g *c47Gen) query() *c47Query {
 		}}
 	case 24, 25:
 		a, rd := g.addr(), g.roundNear()
-		return &c47Query{vL(vSym("qonline"), a[:], rd), func(h *c47Handles) []interface{} {
-			d, err := h.oar.LookupOnline(a, basics.Round(rd))
-			if err != nil {
-				return c47Err(err)
-			}
-			if d.Ref == nil {
-				return vL(uint64(d.Round), d.Addr == a, false, uint64(d.UpdRound), d.AccountData == trackerdb.BaseOnlineAccountData{})
-			}
-			return vL(uint64(d.Round), d.Addr == a, true, uint64(d.UpdRound), c47OnlObs(d.AccountData))
-		}}
+		return c47QOnline(a, rd)
 	case 26:
 		rd := g.roundNear()
 		return &c47Query{vL(vSym("qorpr"), rd), func(h *c47Handles) []interface{} {
@@ -908,17 +831,7 @@ func (g *c47Gen) query() *c47Query {
 		}}
 	case 27:
 		a := g.addr()
-		return &c47Query{vL(vSym("qhist"), a[:]), func(h *c47Handles) []interface{} {
-			ds, rnd, err := h.oar.LookupOnlineHistory(a)
-			if err != nil {
-				return c47Err(err)
-			}
-			var l []interface{}
-			for _, d := range ds {
-				l = append(l, vL(d.Addr == a, uint64(d.UpdRound), uint64(d.Round), d.Ref != nil, c47OnlObs(d.AccountData)))
-			}
-			return vL(uint64(rnd), l)
-		}}
+		return c47QHist(a)
 	case 28:
 		if r.Bool() {
 			rd := g.roundNear()
@@ -1000,6 +913,171 @@ func (g *c47Gen) query() *c47Query {
 	}
 }
 
+func c47QPfx(p string, max uint64, prem map[string]bool, cnt uint64) *c47Query {
+	var pks []string
+	for pk := range prem {
+		pks = append(pks, pk)
+	}
+	sort.Strings(pks)
+	var pre []interface{}
+	for _, pk := range pks {
+		pre = append(pre, vL(pk, prem[pk]))
+	}
+	return &c47Query{vL(vSym("qpfx"), p, max, pre, cnt), func(h *c47Handles) []interface{} {
+		res := map[string]bool{}
+		for pk, f := range prem {
+			res[pk] = f
+		}
+		rnd, err := h.aor.LookupKeysByPrefix(p, max, res, cnt)
+		if err != nil {
+			return c47Err(err)
+		}
+		var ks []string
+		for k := range res {
+			ks = append(ks, k)
+		}
+		sort.Strings(ks)
+		var l []interface{}
+		for _, k := range ks {
+			l = append(l, vL(k, res[k]))
+		}
+		return vL(uint64(rnd), l)
+	}}
+}
+
+func c47QPfxc(p, cur string, limit, maxBytes uint64, incl bool, excl map[string][]byte) *c47Query {
+	var eks []string
+	for ek := range excl {
+		eks = append(eks, ek)
+	}
+	sort.Strings(eks)
+	var exl []interface{}
+	for _, ek := range eks {
+		exl = append(exl, ek)
+	}
+	return &c47Query{vL(vSym("qpfxc"), p, cur, limit, maxBytes, incl, exl), func(h *c47Handles) []interface{} {
+		rnd, res, more, err := h.aor.LookupKeysByPrefixCursor(p, cur, limit, maxBytes, incl, excl)
+		if err != nil {
+			return c47Err(err)
+		}
+		var l []interface{}
+		for _, kv := range res {
+			l = append(l, vL(kv.Key, kv.Value))
+		}
+		return vL(uint64(rnd), l, more)
+	}}
+}
+
+func c47QTop(rd, off, n uint64) *c47Query {
+	return &c47Query{vL(vSym("qtop"), rd, off, n), func(h *c47Handles) []interface{} {
+		m, err := h.ar.AccountsOnlineTop(basics.Round(rd), off, n, c47RewardUnit)
+		if err != nil {
+			return c47Err(err)
+		}
+		var l []interface{}
+		for _, a := range c47SortedAddrs(m) {
+			oa := m[a]
+			l = append(l, vL(a[:], oa.Address == a, oa.MicroAlgos.Raw, oa.NormalizedOnlineBalance, uint64(oa.VoteLastValid)))
+		}
+		return vL(l)
+	}}
+}
+
+func c47QOnlAll(mx uint64) *c47Query {
+	return &c47Query{vL(vSym("qonlall"), mx), func(h *c47Handles) []interface{} {
+		ds, err := h.ar.OnlineAccountsAll(mx)
+		if err != nil {
+			return c47Err(err)
+		}
+		var l []interface{}
+		for _, d := range ds {
+			l = append(l, vL(d.Addr[:], uint64(d.UpdRound), uint64(d.Round), d.Ref != nil, c47OnlObs(d.AccountData)))
+		}
+		return vL(l)
+	}}
+}
+
+func c47QOnline(a basics.Address, rd uint64) *c47Query {
+	return &c47Query{vL(vSym("qonline"), a[:], rd), func(h *c47Handles) []interface{} {
+		d, err := h.oar.LookupOnline(a, basics.Round(rd))
+		if err != nil {
+			return c47Err(err)
+		}
+		if d.Ref == nil {
+			return vL(uint64(d.Round), d.Addr == a, false, uint64(d.UpdRound), d.AccountData == trackerdb.BaseOnlineAccountData{})
+		}
+		return vL(uint64(d.Round), d.Addr == a, true, uint64(d.UpdRound), c47OnlObs(d.AccountData))
+	}}
+}
+
+func c47QHist(a basics.Address) *c47Query {
+	return &c47Query{vL(vSym("qhist"), a[:]), func(h *c47Handles) []interface{} {
+		ds, rnd, err := h.oar.LookupOnlineHistory(a)
+		if err != nil {
+			return c47Err(err)
+		}
+		var l []interface{}
+		for _, d := range ds {
+			l = append(l, vL(d.Addr == a, uint64(d.UpdRound), uint64(d.Round), d.Ref != nil, c47OnlObs(d.AccountData)))
+		}
+		return vL(uint64(rnd), l)
+	}}
+}
+
+type c47Step struct {
+	op *c47Op
+	q  *c47Query
+}
+
+func c47Fill(b byte) (a basics.Address) {
+	for i := range a {
+		a[i] = b
+	}
+	return
+}
+
+func c47OpUk(k string, v []byte) c47Step {
+	return c47Step{op: &c47Op{vL(vSym("uk"), k, v), func(h *c47Handles) error { return h.aow.UpsertKvPair(k, v) }}}
+}
+
+func c47OpIo(a basics.Address, upd uint64, o c47Onl) c47Step {
+	d := c47OnlData(o)
+	return c47Step{op: &c47Op{vL(vSym("io"), a[:], upd, o.normbal, o.votelast, o.algos), func(h *c47Handles) error {
+		_, err := h.oaw.InsertOnlineAccount(a, o.normbal, d, upd, o.votelast)
+		return err
+	}}}
+}
+
+func c47OpOd(fb uint64) c47Step {
+	return c47Step{op: &c47Op{vL(vSym("od"), fb), func(h *c47Handles) error { return h.aw.OnlineAccountsDelete(basics.Round(fb)) }}}
+}
+
+// the witness histories of C47_kv_prefix_scan_refuted / _prefix_flags_refuted, _lookup_online_wrap_refuted,
+// _online_delete_refuted, _online_top_refuted, _recorded_findings_refuted
+func c47Scripted() [][]c47Step {
+	a1, a2 := c47Fill(1), c47Fill(2)
+	onl := func(algos uint64) c47Onl { return c47Onl{normbal: algos, votelast: 1000, algos: algos} }
+	return [][]c47Step{
+		{
+			c47OpUk("bx:aaa1", []byte{1}), c47OpUk("bx:aaa2", []byte{2}), c47OpUk("bx:abb3", []byte{}), c47OpUk("cz:zzz", []byte{4}),
+			{q: c47QPfx("bx:a", 10, map[string]bool{}, 0)},
+			{q: c47QPfx("bx:a", 10, map[string]bool{"bx:aaa1": false}, 0)},
+			{q: c47QPfxc("bx:a", "", 0, 0, false, map[string][]byte{})},
+			{q: c47QPfxc("bx:a", "bx:aaa1", 1, 0, true, map[string][]byte{})},
+		},
+		{
+			c47OpIo(a1, 5, onl(10)), c47OpIo(a1, 255, onl(20)), c47OpIo(a1, 256, onl(30)),
+			{q: c47QOnline(a1, 255)}, {q: c47QOnline(a1, 511)}, {q: c47QOnline(a1, 256)}, {q: c47QHist(a1)}, {q: c47QHist(a2)}, {q: c47QOnlAll(0)},
+			c47OpOd(255),
+			{q: c47QHist(a1)}, {q: c47QOnline(a1, 254)}, {q: c47QOnlAll(0)},
+		},
+		{
+			c47OpIo(a1, 5, onl(10)), c47OpIo(a2, 3, onl(100)),
+			{q: c47QTop(5, 0, 1)}, {q: c47QTop(5, 0, 10)},
+		},
+	}
+}
+
 func c47Open(t *testing.T, dir string) (*c47Handles, *c47Handles) {
 	proto := config.Consensus[protocol.ConsensusCurrentVersion]
 	s, _ := sqlitedriver.OpenForTesting(t, true)
@@ -1034,6 +1112,35 @@ func TestVerifC47(t *testing.T) {
 	qKinds := map[string]int{}
 	opErrs := 0
 	lens := map[int]int{}
+	emit := func(ops []interface{}, q *c47Query, hs, hk *c47Handles) {
+		so, ko := q.run(hs), q.run(hk)
+		kind := string(q.term[0].(vSym))
+		if recorded[kind] {
+			outRec.Case(append([]interface{}{}, ops...), q.term, so, ko)
+		} else {
+			out.Case(append([]interface{}{}, ops...), q.term, so, ko)
+		}
+		qKinds[kind]++
+	}
+	// scripted histories first: the witnesses of the ..._refuted theorems of coq/props/C47.v, replayed on the real code
+	for si, sc := range c47Scripted() {
+		hs, hk := c47Open(t, filepath.Join(tmp, fmt.Sprintf("s%d", si)))
+		var ops []interface{}
+		for _, step := range sc {
+			if step.op != nil {
+				es, ek := step.op.apply(hs), step.op.apply(hk)
+				if es != nil || ek != nil {
+					opErrs++
+					t.Errorf("scripted write %v failed: sqlite=%v kv=%v", vT(step.op.term...), es, ek)
+				}
+				ops = append(ops, step.op.term)
+			} else {
+				emit(ops, step.q, hs, hk)
+			}
+		}
+		hs.close()
+		hk.close()
+	}
 	for hi := 0; hi < nHist; hi++ {
 		g := c47NewGen(r)
 		dir := filepath.Join(tmp, fmt.Sprintf("h%d", hi))
@@ -1057,15 +1164,7 @@ func TestVerifC47(t *testing.T) {
 				opKinds[string(op.term[0].(vSym))]++
 			}
 			for i := 0; i < nQuery; i++ {
-				q := g.query()
-				so, ko := q.run(hs), q.run(hk)
-				kind := string(q.term[0].(vSym))
-				if recorded[kind] {
-					outRec.Case(append([]interface{}{}, ops...), q.term, so, ko)
-				} else {
-					out.Case(append([]interface{}{}, ops...), q.term, so, ko)
-				}
-				qKinds[kind]++
+				emit(ops, g.query(), hs, hk)
 			}
 			lens[len(ops)/10*10]++
 		}
